@@ -149,3 +149,6 @@ pub const W7: &str = "id: w7\nsteps:\n  - id: s1\n    acts:\n      - uses: acts.
 pub const WE1: &str = "id: we1\nenv:\n  e1: 5\nsteps:\n  - id: s1\n    acts:\n      - uses: acts.core.irq\n        key: a1\n  - id: s2\n";
 pub const WE2: &str = "id: we2\nsteps:\n  - id: s1\n    acts:\n      - uses: acts.transform.code\n        params: \"$env.e2 = 7;\"\n      - uses: acts.core.irq\n        key: a1\n  - id: s2\n    acts:\n      - uses: acts.core.irq\n        key: a2\n";
 pub const WD1: &str = "id: wd1\ninputs:\n  x: 0\nsteps:\n  - id: s1\n    acts:\n      - uses: acts.transform.set\n        params:\n          x: 7\n      - uses: acts.core.irq\n        key: a1\n  - id: s2\n    acts:\n      - uses: acts.core.irq\n        key: a2\n";
+
+/// a workflow input and a step input, both reachable by the options of one client action
+pub const WD2: &str = "id: wd2\ninputs:\n  a: 0\nsteps:\n  - id: s1\n    inputs:\n      b: 0\n    acts:\n      - uses: acts.core.irq\n        key: a1\n      - uses: acts.core.irq\n        key: a2\n  - id: s2\n    acts:\n      - uses: acts.core.irq\n        key: a3\n";
